@@ -19,9 +19,11 @@ pub enum Ty {
     Struct,
     VecU8,
     SliceRef,
+    /// a type with PartialEq but without Debug (`NdEq(u8)`): rendered as `?`; patterns: `_`, bindings, eq!/ne!
+    NoDbg,
 }
 
-pub const ALL_TYS: [Ty; 12] = [
+pub const ALL_TYS: [Ty; 13] = [
     Ty::U8,
     Ty::Bool,
     Ty::Char,
@@ -34,6 +36,7 @@ pub const ALL_TYS: [Ty; 12] = [
     Ty::Struct,
     Ty::VecU8,
     Ty::SliceRef,
+    Ty::NoDbg,
 ];
 
 #[derive(Clone, Debug, PartialEq, Eq, Hash, Serialize, Deserialize)]
@@ -66,6 +69,7 @@ impl Ty {
             Ty::Struct => "S",
             Ty::VecU8 => "Vec<u8>",
             Ty::SliceRef => "&[u8]",
+            Ty::NoDbg => "NdEq",
         }
     }
 
@@ -74,6 +78,7 @@ impl Ty {
         match self {
             Ty::U8 => [0u8, 1, 2, 3, 5, 9].iter().map(|v| Val::U8(*v)).collect(),
             Ty::Bool => vec![Val::Bool(false), Val::Bool(true)],
+            Ty::NoDbg => vec![Val::U8(0), Val::U8(1)],
             Ty::Char => vec![Val::Char('a'), Val::Char('b'), Val::Char('z')],
             Ty::StrRef | Ty::String | Ty::Newtype => vec![s(""), s("a"), s("ab"), s("b")],
             Ty::OptU8 => vec![
@@ -119,6 +124,7 @@ impl Ty {
     pub fn arg_expr(self, v: &Val) -> String {
         match (self, v) {
             (Ty::U8, Val::U8(x)) => format!("{x}u8"),
+            (Ty::NoDbg, Val::U8(x)) => format!("NdEq({x})"),
             (Ty::Bool, Val::Bool(b)) => format!("{b}"),
             (Ty::Char, Val::Char(c)) => format!("{c:?}"),
             (Ty::StrRef, Val::Str(s)) => format!("{s:?}"),
@@ -140,6 +146,7 @@ impl Ty {
     /// `{:?}` rendering of the argument as unimock's `debug_inputs` sees it.
     pub fn debug_string(self, v: &Val) -> String {
         match (self, v) {
+            (Ty::NoDbg, _) => "?".into(),
             (_, Val::U8(x)) => format!("{x}"),
             (_, Val::Bool(b)) => format!("{b}"),
             (_, Val::Char(c)) => format!("{c:?}"),
@@ -170,6 +177,8 @@ impl Ty {
 pub const PRELUDE: &str = r#"
 #![allow(unused)]
 pub use unimock::*;
+#[derive(Clone, PartialEq, Eq)]
+pub struct NdEq(pub u8);
 #[derive(Debug, Clone, PartialEq, Eq)]
 pub struct Nt(pub String);
 impl AsRef<str> for Nt { fn as_ref(&self) -> &str { self.0.as_str() } }
@@ -637,6 +646,14 @@ pub fn arg_pat(
         Just((P::Wild, vec![])).boxed()
     };
     let structural: BoxedStrategy<PV> = match ty {
+        // no literal syntax for this type: compare (eq!/ne!) or ignore
+        Ty::NoDbg => {
+            if allow_eq {
+                eqs.clone()
+            } else {
+                wild.clone()
+            }
+        }
         Ty::U8 => u8_pat(format!("{prefix}a")),
         Ty::Bool => bool_pat(format!("{prefix}a")),
         Ty::Char => prop_oneof![
